@@ -12,6 +12,7 @@ import Proofs.DepMile
 import Proofs.NoIdleBack
 import Proofs.OneSet
 import Proofs.TeamSame
+import Proofs.TeamFit
 import Properties.C09
 /-! driver command `J {"op":"sched", …}`: run the scheduler model on one scenario projection -/
 namespace SPD
@@ -270,6 +271,24 @@ def runSched (j : Json) : Json :=
   let oneSetFail := (List.range e.tasks.size).filter (fun t =>
     let rs := ((σ.led.m.toList.filter (fun (ks : Key × Slot) => (usageOf ks.2.usage t).isSome)).map (fun ks => ks.1.1)).eraseDups
     !(rs.all (fun r => (e.taskD t).alloc.contains r) || rs.all (fun r => (e.taskD t).alt.contains r)))
+  -- C07.team_earliest_fit: unlimited forward teams
+  let teamUs := anyTeams.filter (fun t =>
+    let d := e.taskD t
+    !d.startProvided && d.alloc.all (fun m => (e.resD m).leaf && (resLimitIds e m).isEmpty) && (taskLimitIds e t).isEmpty &&
+      (σ.tst t).scheduled && (σ.tst t).forward)
+  let teamFitFail := teamUs.filter (fun t =>
+    let sel := (e.taskD t).alloc
+    let pre := (order.dropWhile (fun x => x != t)).drop 1
+    let booked := (σ.led.m.toList.filter (fun (ks : Key × Slot) => sel.contains ks.1.1 && (usageOf ks.2.usage t).isSome)).map (fun ks => ks.1.2)
+    let b := boundSlot e σ t
+    match booked.foldl (fun (m : Option Int) i => match m with | none => some i | some x => some (max x i)) none with
+    | none => false
+    | some L =>
+      !(order.contains t && (List.range (L - b + 1).toNat).all (fun k =>
+        let i := b + (k : Int)
+        !(sel.all (fun m => e.onShift m i && !e.leaveMark m i)) ||
+          sel.all (fun m => (usageOf (σ.led.get m i).usage t).isSome) ||
+          sel.any (fun m => pre.any (fun t' => (usageOf (σ.led.get m i).usage t').isSome)))))
   -- containers: scheduled => children scheduled and dates = min / max; all children scheduled => scheduled
   let conts := (List.range e.tasks.size).filter (fun c => !(e.taskD c).leaf && !(e.taskD c).children.isEmpty)
   let contFail := conts.filter (fun c =>
@@ -288,6 +307,7 @@ def runSched (j : Json) : Json :=
                          ("idle_tasks_unlimited", Json.num (JsonNumber.fromNat idleUnlimited)),
                          ("alap_tasks", Json.num (JsonNumber.fromNat alapTasks.length)), ("alap_idle_fail", Json.num (JsonNumber.fromNat alapFail.length)),
                          ("fit_fail", Json.num (JsonNumber.fromNat fitFail.length)),
+                         ("team_fit_tasks", Json.num (JsonNumber.fromNat teamUs.length)), ("team_fit_fail", Json.num (JsonNumber.fromNat teamFitFail.length)),
                          ("placed", Json.num (JsonNumber.fromNat order.length)), ("order_fail", Json.num (JsonNumber.fromNat ordFail.length)),
                          ("limit_periods", Json.num (JsonNumber.fromNat limChecks.length)), ("limit_fail", Json.num (JsonNumber.fromNat limFail.length)),
                          ("containers", Json.num (JsonNumber.fromNat conts.length)), ("container_fail", Json.num (JsonNumber.fromNat contFail.length)),
